@@ -30,7 +30,8 @@ def _handle_stop(src):
     steps = [
         ("stopping", r"self\.stopping\s*=\s*true"),
         ("wake_stop", r"self\.waker_queue\.wake\(\s*WakerInterest::Stop\s*\)"),
-        ("stop_workers", r"\.map\(\s*\|worker\|\s*worker\.stop\(\s*graceful\s*\)\s*\)"),
+        # (collected at once: `map` is lazy, the Stop messages are sent by the collection — for a forced stop as well)
+        ("stop_workers", r"\.map\(\s*\|worker\|\s*worker\.stop\(\s*graceful\s*\)\s*\)\s*\.collect::<Vec<_>>\(\)\s*;"),
         ("await_workers", r"(?<![A-Za-z0-9_:.])join_all\(\s*workers_stop\s*\)\s*\.await"),
         ("join_accept", r"\.join\(\)"),
         ("completion", r"tx\.send\(\s*\(\)\s*\)"),
